@@ -280,6 +280,17 @@ func (p *Program) replay(verif, prop string, v *Violation, ob *Oblig) *ReplayRes
 	na := func(format string, a ...interface{}) *ReplayResult {
 		return &ReplayResult{Attempted: false, Note: fmt.Sprintf(format, a...)}
 	}
+	if ob != nil && ob.Kind == "exhaustive" && ob.Status == "sat" {
+		// decided by execution on the real initialised tables: the failing case is a concrete input
+		rel := ""
+		if ct := p.contracts[ob.Fn]; ct != nil {
+			if sp := p.spkgs[ct.Pkg]; sp != nil {
+				rel = strings.TrimPrefix(sp.Pkg.Path(), modulePath+"/")
+			}
+		}
+		return &ReplayResult{Attempted: true, Confirmed: true, Driver: "go test -overlay (exhaustive evaluation of the clause on the initialised tables)",
+			Input: ob.Output, Output: ob.Output, PkgDir: rel, Test: ob.Model, Note: "the real tables violate the clause on this element of the enumerated domain"}
+	}
 	if ob == nil || ob.Kind != "ensures" {
 		return na("no replay driver for this obligation family (only `ensures` clauses of scalar units are replayed)")
 	}
@@ -467,7 +478,7 @@ func runReplay(repo string, res *ReplayResult, mayPanic bool) {
 	ov, _ := json.Marshal(map[string]map[string]string{"Replace": {filepath.Join(repo, res.PkgDir, "zz_govc_replay_test.go"): tf}})
 	of := filepath.Join(dir, "overlay.json")
 	os.WriteFile(of, ov, 0o644)
-	cmd := exec.Command("go", "test", "-overlay", of, "-vet=off", "-count=1", "-timeout", "60s", "-v", "-run", "^TestGovcReplay$", "./"+res.PkgDir+"/")
+	cmd := exec.Command("go", "test", "-overlay", of, "-vet=off", "-count=1", "-timeout", "60s", "-v", "-run", "^TestGovc(Replay|Exhaustive)$", "./"+res.PkgDir+"/")
 	cmd.Dir = repo
 	cmd.Env = append(os.Environ(), "GOFLAGS=-mod=mod", "GOPROXY=off", "GOSUMDB=off", "GOTOOLCHAIN=local")
 	done := make(chan struct{})
@@ -483,7 +494,7 @@ func runReplay(repo string, res *ReplayResult, mayPanic bool) {
 	}
 	var keep []string
 	for _, l := range strings.Split(string(out), "\n") {
-		if strings.Contains(l, "GOVC-REPLAY") || strings.Contains(l, "zz_govc_replay_test.go") || strings.HasPrefix(l, "FAIL") || strings.HasPrefix(l, "ok") {
+		if strings.Contains(l, "GOVC-REPLAY") || strings.Contains(l, "GOVC-EXH") || strings.Contains(l, "zz_govc_replay_test.go") || strings.HasPrefix(l, "FAIL") || strings.HasPrefix(l, "ok") {
 			keep = append(keep, l)
 		}
 	}
@@ -491,6 +502,11 @@ func runReplay(repo string, res *ReplayResult, mayPanic bool) {
 	switch {
 	case strings.Contains(res.Output, "precondition-false"):
 		res.Note = "the model's parameter values do not satisfy the precondition on the real code (the model relies on abstracted parts)"
+	case strings.Contains(res.Output, "GOVC-EXH fail"):
+		res.Confirmed = true
+		res.Note = "the real tables violate the clause on an element of the enumerated domain"
+	case strings.Contains(res.Output, "GOVC-EXH done"):
+		res.Note = "the clause holds on the whole enumerated domain"
 	case strings.Contains(res.Output, "holds=false"):
 		res.Confirmed = true
 		res.Note = "the real code violates the clause on this input"
